@@ -6,15 +6,17 @@ package zzverifw
 // arbitrary argument shapes; and property lookup / printing on every built-in object.
 
 import (
-	"strings"
 	"fmt"
+	"github.com/Syuparn/pangaea/runscript"
 	"sort"
+	"strings"
 
 	"github.com/Syuparn/pangaea/object"
 	rt "github.com/Syuparn/pangaea/zzverifrt"
 )
 
 func init() {
+	rt.Register("H_C01_repl", H_C01_repl)
 	rt.Register("H_C01_builtin", H_C01_builtin)
 	rt.Register("H_C01_singletons", H_C01_singletons)
 }
@@ -164,6 +166,29 @@ func H_C01_builtin() {
 			rt.Assert(pm2 == "", "a value returned by a built-in must not abort the interpreter when it is printed, compared, unpacked or iterated")
 			_ = out
 		}
+	}
+}
+
+// H_C01_repl: a REPL session of three lines through the real StartREPL.  The first line is a
+// solver choice from the generated pool (the string literals of /repo/runscript, i.e. the
+// REPL's own commands and prompts, perturbed in case, blanks, truncation, duplication) plus
+// a few programs; the second line is a command, a program, an unfinished program or empty.
+func H_C01_repl() {
+	pool := append(append([]string{}, runscript.VReplLines()...), "1 + 1", "", "(", "raise ValueErr.new(\"x\")", "multi", "single")
+	lo := len(pool) * rt.Param(0) / rt.Param(1)
+	hi := len(pool) * (rt.Param(0) + 1) / rt.Param(1)
+	if hi <= lo {
+		return
+	}
+	l1 := pool[lo+rt.Choice(hi-lo)]
+	seconds := []string{"1 + 1", "", "(", "multi", "single", "Multi", "x := 1"}
+	l2 := seconds[rt.Choice(len(seconds))]
+	rt.Note(fmt.Sprintf("%q / %q / \"1 + 1\"", l1, l2))
+	var out string
+	pm := rt.Panics(func() { out = runscript.VH_C01_repl([]string{l1, l2, "1 + 1"}) })
+	rt.Assert(pm == "", "a REPL line must not abort the interpreter, whatever is typed")
+	if pm == "" {
+		rt.Assert(strings.Contains(out, "Pangaea"), "the REPL session runs and prints its banner")
 	}
 }
 
